@@ -298,14 +298,19 @@ func init() {
 			for _, sc := range c03Scenarios() {
 				us = append(us, shardUnits(sc.Name, b, 4)...)
 			}
+			us = append(us, raceUnits(c03Scenarios(), nil)...)
 			return us
 		},
+		ExeFor: raceExe,
 		Run: func(unit string, env *fw.Env) *fw.Result {
 			switch {
 			case strings.HasPrefix(unit, "bodies/"):
 				return c03ProgUnit(unit, env)
 			case strings.HasPrefix(unit, "crash/"):
 				return c03CrashUnit(unit, env)
+			}
+			if strings.HasPrefix(unit, "race/") {
+				return raceRun("C03", c03Scenarios(), unit, env)
 			}
 			sp := parseSched(unit)
 			for _, sc := range c03Scenarios() {
